@@ -60,16 +60,16 @@ func (p Pattern) Matches(s string) bool {
 	si := 0
 	pl := len(p)
 	sl := len(s)
+	// Wildcard characters only have special meaning at the start of a token.
+	start := true
 	for pi < pl {
 		if si == sl {
 			return false
 		}
 		c := p[pi]
 		pi++
-		switch c {
-		case '$':
-			fallthrough
-		case '*':
+		switch {
+		case start && (c == '$' || c == '*'):
 			for pi < pl && p[pi] != '.' {
 				pi++
 			}
@@ -79,7 +79,7 @@ func (p Pattern) Matches(s string) bool {
 			for si < sl && s[si] != '.' {
 				si++
 			}
-		case '>':
+		case start && c == '>':
 			return pi == pl
 		default:
 			if c != s[si] {
@@ -87,6 +87,7 @@ func (p Pattern) Matches(s string) bool {
 			}
 			si++
 		}
+		start = c == '.'
 	}
 	return si == sl
 }
